@@ -182,6 +182,11 @@ func conclude(c *Check, tier string, seed int64, results []*WorkerResult, crashe
 	var allSamples []interface{}
 	for _, name := range famNames {
 		f := fams[name]
+		if f.States == 0 && f.Evaluations > 0 {
+			// family did not account its enumeration tree: every executed case is a leaf
+			// under one root (flat product), so nodes = leaves + 1, edges = leaves.
+			f.States, f.Transitions = f.Evaluations+1, f.Evaluations
+		}
 		tot.Evaluations += f.Evaluations
 		tot.Nontrivial += f.Nontrivial
 		tot.States += f.States
